@@ -137,7 +137,7 @@ def ctype0 (req : Req) : Str := strip ((splitOn1 ';' (lowerCT req)).headD [])
 
 /-- the `json` property -/
 def jsonOf (cfg : Cfg) (jl : JLoads) (req : Req) : Except Exc JVal :=
-  if ctype0 req = "application/json".toList then
+  if ctype0 req = cs!"application/json" then
     match getBodyString cfg req with
     | .error e => .error e
     | .ok b =>
@@ -175,8 +175,8 @@ structure PostRun where
 def postOf (cfg : Cfg) (jl : JLoads) (req : Req) : PostRun :=
   let ct := lowerCT req
   let mapped (e : Err) : Exc := raiseErr cfg.errorsMap e (some .requestError)
-  if ¬ startsWithS ct "multipart/".toList then
-    if startsWithS ct "application/json".toList then
+  if ¬ startsWithS ct cs!"multipart/" then
+    if startsWithS ct cs!"application/json" then
       match jsonOf cfg jl req with
       | .error e => ⟨.empty, none, .error e⟩
       | .ok .null => ⟨.empty, some .empty, .ok .empty⟩
@@ -232,7 +232,7 @@ def runPost (cfg : Cfg) (jl : JLoads) (req : Req) (c : Cache) : Cache × Except 
   let ct := lowerCT req
   -- the JSON branch goes through the `json` property, which caches a successful result
   let jc : Option JVal :=
-    if ¬ startsWithS ct "multipart/".toList ∧ startsWithS ct "application/json".toList then
+    if ¬ startsWithS ct cs!"multipart/" ∧ startsWithS ct cs!"application/json" then
       match jsonOf cfg jl req with
       | .ok j => some j
       | .error _ => c.json
